@@ -7,6 +7,7 @@ import (
 	"math/rand"
 	"os"
 	"strings"
+	"time"
 
 	"Havoc/pkg/logger"
 
@@ -45,6 +46,11 @@ func run(c *lib.Ctx) {
 		return
 	}
 
+	t0 := time.Now()
+	phase := func(name string) {
+		c.ObserveMax("max:wall_ms_"+name, time.Since(t0).Milliseconds()) // evidence only, never an oracle input
+		t0 = time.Now()
+	}
 	// ---- A1: full product of the enumerated options (+ one unknown value each) ----
 	i := 0
 	for _, al := range vAlloc {
@@ -80,6 +86,7 @@ func run(c *lib.Ctx) {
 		}
 	}
 	c.Checkpoint()
+	phase("A1_option_product")
 
 	// ---- A2: working-hours strings over the grammar [12]?[0-9]:[0-6][0-9]-… ----
 	hours, mins := whHoursQuick, whMinsQuick
@@ -127,9 +134,10 @@ func run(c *lib.Ctx) {
 		}
 	}
 	c.Checkpoint()
+	phase("A2_wh_grid")
 
 	// ---- A3: random options x listeners ----
-	n := c.N(40000, 4000000)
+	n := c.N(24000, 4000000)
 	for k := 0; k < n; k++ {
 		cs := genCase(c.Rng)
 		observeCase(c, cs)
@@ -140,6 +148,7 @@ func run(c *lib.Ctx) {
 		}
 	}
 	c.Checkpoint()
+	phase("A3_random")
 
 	// ---- B: real builds with hostile operator strings ----
 	total := 160
@@ -154,6 +163,7 @@ func run(c *lib.Ctx) {
 		}
 	}
 	runJobs(c, jobs)
+	phase("B_builds")
 }
 
 // runJobs executes build jobs (twin first, then the job) in batches and judges them.
